@@ -239,14 +239,20 @@ def fix_overflow_keeps_lookup(k, ext):
 # ------------------------------------------------------------------------------------------------ GPOS compaction
 @kernel('C06', funcs=['otlLib/optimize/gpos.py:compact_class_pairs', 'otlLib/optimize/gpos.py:is_really_zero', 'otlLib/optimize/gpos.py:cluster_pairs_by_class2_coverage_custom_cost',
                       'otlLib/builder.py:buildPairPosClassesSubtable'],
-        bounds='class-based PairPos (partitions from the parameter) with symbolic values on either / both sides (zero vs non-zero of every value is a '
+        bounds='class-based PairPos (partitions from the parameter; in the -uncovered variant ClassDef1 also classifies a glyph outside the Coverage) with symbolic values on either / both sides (zero vs non-zero of every value is a '
                'solver fork, which is what the compaction keys on), compaction level 1-9: the compacted subtable list gives the same adjustment '
                'for every glyph pair',
-        quick=[dict(shape='c2x2', vf1='adv', vf2=None, level=5), dict(shape='c2x2', vf1=None, vf2='adv', level=5), dict(shape='c3', vf1='adv', vf2='adv', level=9)],
-        thorough=[dict(shape=s, vf1=a, vf2=b, level=l) for s in ('c2x2', 'c3') for a, b in (('adv', None), (None, 'adv'), ('adv', 'adv'), ('pla', None)) for l in (1, 5, 9)],
+        quick=[dict(shape='c2x2', vf1='adv', vf2=None, level=5), dict(shape='c2x2', vf1=None, vf2='adv', level=5), dict(shape='c3', vf1='adv', vf2='adv', level=9),
+               dict(shape='c3-uncovered', vf1='adv', vf2=None, level=5)],
+        thorough=[dict(shape=s, vf1=a, vf2=b, level=l) for s in ('c2x2', 'c3', 'c3-uncovered') for a, b in (('adv', None), (None, 'adv'), ('adv', 'adv'), ('pla', None)) for l in (1, 5, 9)],
         max_paths=100000)
 def compaction_preserves_pairs(shape, vf1, vf2, level):
-    st = _classpair(*CLASSINGS[shape], vf1, vf2)
+    if shape.endswith('-uncovered'):
+        # ClassDef1 also classifies a glyph that the Coverage does not list (legal: the Coverage decides): it must stay unkerned
+        st = _classpair(*CLASSINGS[shape[:-len('-uncovered')]], vf1, vf2)
+        st.ClassDef1.classDefs['e'] = len(st.Class1Record) - 1
+    else:
+        st = _classpair(*CLASSINGS[shape], vf1, vf2)
     before = [_snapshot(st)]
     font = Stub(GLYPHS)
     out = OG.compact_class_pairs(font, level, st)
